@@ -348,7 +348,11 @@ func run(c Case) (res vkit.Result) {
 						}
 						for _, id := range gotRemote(pr[0], ch) {
 							if id == net.Nodes[pr[1]].Name.String() {
-								return vkit.Failf("step %d: after broker %d became unreachable and was garbage-collected, broker %d still forwards %q to broker %d", step, x, pr[0], ch, pr[1])
+								msg := fmt.Sprintf("step %d: after broker %d became unreachable and was garbage-collected, broker %d still forwards %q to broker %d", step, x, pr[0], ch, pr[1])
+								if offlineThenBack { // an earlier offline/reconnect left the replicated state inconsistent (listed finding)
+									return failf("%s", msg)
+								}
+								return vkit.Failf("%s", msg)
 							}
 						}
 					}
